@@ -927,6 +927,14 @@ def locals_owner(F):
                 else:
                     m = re.match(r"^(.*)\.(params|args)\.len\(\)$", place_path(peel(args[1])) or "") if False else None
                     a1 = peel(args[1])
+                    for _i in range(3):
+                        # `let num_params = self.args.len();` hoisted out of a loop
+                        if a1.get("k") == "Path" and a1.get("res", {}).get("r") == "local":
+                            _pt, init_, kind_ = binding_site(fn["body"], a1["res"]["hid"])
+                            if init_ is not None and kind_ == "let":
+                                a1 = peel(init_)
+                                continue
+                        break
                     root1 = None
                     if a1.get("k") == "MethodCall" and a1["method"] == "len":
                         pp = place_path(a1["recv"]) or ""
@@ -1180,8 +1188,8 @@ def fresh_ids(F):
         ok = False
         for x in walk(fn["body"]):
             if x.get("k") == "Match" and "assert_eq" in (x.get("exp") or []) or (x.get("k") in ("Match", "If") and "assert_eq" in (x.get("exp") or [])):
-                if any(y.get("k") == "MethodCall" and y["method"] == "next_id" for y in walk(x)):
-                    ok = True
+                if any(y.get("k") == "MethodCall" and (y["method"] == "next_id" or (y["method"] == "len" and (place_path(y["recv"]) or "").startswith("self."))) for y in walk(x)):
+                    ok = True        # next_id() is `<collection>.len()`: either spelling asserts id == position
         r.ob(ok, {"import adder": fn["path"], "asserts id == next_id()": ok})
         if not ok:
             r.violate("%s | id assertion" % fn["path"], F.loc(fn), "%s::%s no longer asserts that the id chosen by Module::add_import equals next_id(): a wrong id would be stored silently" % (adt, name))
